@@ -736,9 +736,14 @@ def assumptions():
         'strings are ASCII; values under a key are str or absent (None = absent)',
         'regex patterns outside the modelled fragment (anchors, {m,n}, lazy/possessive quantifiers, (?..), \\d \\w ...) are not compared with the model; the oracle still uses Python re for them',
         'the empty string as a pattern is excluded from the filter theorems (hypothesis ~ In [] pats)',
-        'lookups_ok / LookOK (what global_service.lookup answers = every child carrying the value) is a hypothesis of the filter theorems; '
-        'it is derived from C10\'s table invariant for the key .NAME (C13_lookup_hypothesis_for_names) and holds outright for keys without a '
-        'registered lookup and with the lookups deregistered (C13_lookup_hypothesis_for_scanned_keys)',
+        'lookups_ok / LookOK (what global_service.lookup answers = every child carrying the value, compared the way the namespace of the child '
+        'compares it) is a hypothesis of the filter theorems; it is derived from C10\'s table invariant for the key .NAME '
+        '(C13_lookup_hypothesis_for_names), holds outright for keys without a registered lookup and with the lookups deregistered '
+        '(C13_lookup_hypothesis_for_scanned_keys) and under the DEFAULT policy, and for EDIF.identifier under the EDIF policy it is derived '
+        'from C10\'s invariant plus PolCoh - the children of a parent with an EDIF table carry .NS = EDIF - which is a hypothesis '
+        '(C13_lookup_hypothesis_for_identifiers); on the implementation the lookup clause of the oracle checks it on every run',
+        'an exact pattern is compared per element: case-insensitively iff the key is EDIF.identifier and the element\'s .NS is EDIF (oracle: '
+        'ci_exact(e); model: fold_of) - finding C13-K4 repaired',
         'the enumeration theorems assume the structural invariants QWF (C01/C02 invariants, well-kinded ids; hold in every state reached by '
         'editing calls: C13_reachable_states) and speak about runs that end within the fuel (WOk); that some fuel suffices is proved for '
         'get_netlists / get_ports / get_pins in every such state and for get_instances / get_definitions / get_libraries / get_cables / '
